@@ -32,15 +32,17 @@ def plan(ctx):
     quick = ctx.tier == 'quick'
     jobs = []
     for op, kmax in OPS.items():
+        if quick and op == 'intersect':
+            continue        # does not finish inside a quick cap (DESIGN 0.5); thorough tier only
         ks = [2] if quick else [3]
         if op in ('intersect', 'setops'):
             # the result vector grows through libstdc++'s real reallocation path: smaller K
             ks = [1] if quick else [2]
         for k in ks:
             for b in ('b0', 'b32', 'b63', 'btop'):
-                jobs.append(('c16_%s_k%d_%s' % (op, k, b), k, (900 if op in ('intersect', 'setops') else 300) if quick else 1800))
+                jobs.append(('c16_%s_k%d_%s' % (op, k, b), k, (900 if op in ('intersect', 'setops') else 700) if quick else 2400))
         if quick and op in ('add', 'remove', 'query'):
-            jobs.append(('c16_%s_k3_b0' % op, 3, 500))
+            jobs.append(('c16_%s_k3_b0' % op, 3, 900))
         if not quick and kmax >= 4:
             jobs.append(('c16_%s_k4_b0' % op, 4, 3000))
         if not quick:
